@@ -278,8 +278,11 @@ def _main(prop, tier, seed, nproc, spec, tmpdir, t_start):
             ljobs = []
             for callee in sorted(pending):
                 done.add(callee)
-                m = re.match(r'\(%s\.(\w+)\)\.(\w+)$' % re.escape(PROG.pkg), callee)
-                h = 'vh_lemma_%s_%s' % (m.group(1), m.group(2))
+                if callee == 'compose/decompose round trip':
+                    h = 'vh_lemma_compose'
+                else:
+                    m = re.match(r'\(%s\.(\w+)\)\.(\w+)$' % re.escape(PROG.pkg), callee)
+                    h = 'vh_lemma_%s_%s' % (m.group(1), m.group(2))
                 if PROG.pkg + '.' + h not in PROG.funcs:
                     lemma_results.append({'harness': h, 'args': [], 'error': 'no lemma harness for contract of ' + callee,
                                           'obligations': [], 'paths': 0, 'ended': {}, 'trivial': 0, 'merges': 0, 'forks': 0,
